@@ -214,6 +214,7 @@ def execute(scn, keep_log=False, hook=None):
     feeder = bus.port('X')          # hostile source: frames are injected on the bus from here
     txn = [0]
     reactive_on = [True]
+    last_reactive = [0]
     stats['reactive_frames'] = 0
 
     def on_stack_tx(fr):
@@ -224,6 +225,7 @@ def execute(scn, keep_log=False, hook=None):
         for r in scn.get('react', []):
             if r['on_tx'] == k:
                 stats['reactive_frames'] += 1
+                last_reactive[0] = sim.now
                 bus.send_sync('X', r['id'], True, bytes.fromhex(r['d']), fd)
     bus.observers.append(on_stack_tx)
     base = sim.now
@@ -264,6 +266,14 @@ def execute(scn, keep_log=False, hook=None):
     stats['notify_exceptions'] = len(st.notify_excs)
     # ---- after the longest timeout everything opened by that traffic must be released
     sim.run_for(3.0 + 0.3)
+    for _ in range(4):
+        # a reactive frame may have been processed during the settle phase (triggered by a time-out transmission):
+        # the longest time-out counts from the last frame the stack received
+        if last_reactive[0] > t_last:
+            t_last = last_reactive[0]
+            sim.run_until(t_last + 3_300_000_000)
+        else:
+            break
     reactive_on[0] = False      # the hostile phase (incl. the time-outs it causes) is over
     stats['hostile_deliveries'] = len(w.deliveries)
     stats['stack_tx_frames'] = sum(1 for fr in bus.frames if fr.src == 'S')
